@@ -89,7 +89,7 @@ Theorem open_class_refuted :
 Proof. exact open_class_refuted_l. Qed.
 
 (* the hash hypothesis of grace_is_sql_join on the former class-1 witness: Int 1 and Float 1.0 match and
-   (since 50ce016, hash_join_key) carry the same DefaultHasher value *)
+   (since dff11cf, hash_join_key) carry the same DefaultHasher value *)
 Theorem hash_respects_on_witness :
   keys_match_static [VInt 1; VInt 10] [VFloat 4607182418800017408; VInt 100] [0%nat] [0%nat] = true /\ (match w1 with Exec _ _ _ _ _ _ _ _ _ L R _ => forallb (fun l => forallb (fun r => implb (keys_match_static (fst l) (fst r) [0%nat] [0%nat]) (snd l =? snd r)) R) L | _ => false end) = true.
 Proof. exact hash_respects_on_w1_l. Qed.
